@@ -461,3 +461,29 @@ func (in *Inst) QueryYears(w, from, to int) (int, error) {
 	}
 	return n, nil
 }
+
+// EnqueueOnly performs the FIRST half of Writer.WriteCSM for writer w's request of k rows — everything up
+// to and including Writer.WriteRecords (one QueueWriteCommand per row) — and does not call RequestFlush.
+// The second half is WAL.RequestFlush().  Used to schedule other goroutines between the two halves.
+func (in *Inst) EnqueueOnly(w, k int) error {
+	for tbk, cs := range CSM(w, k) {
+		tbk := tbk
+		times, err := cs.GetTime()
+		if err != nil {
+			return err
+		}
+		tbi, err := in.Cat.GetLatestTimeBucketInfoFromKey(&tbk)
+		if err != nil {
+			return err
+		}
+		dsv := tbi.GetDataShapesWithEpoch()
+		rowData, _, err := io.SerializeColumnsToRows(cs, dsv, false)
+		if err != nil {
+			return err
+		}
+		if err := in.W.WriteRecords(times, rowData, dsv, tbi); err != nil {
+			return err
+		}
+	}
+	return nil
+}
